@@ -150,6 +150,10 @@ def enumerate_cases(tier):
         yield {"where": "body", "texts": chunk, "convert": [True] * len(chunk)}
         if (i // 200) % 4 == 0:
             yield {"where": "body", "texts": chunk, "convert": [bool((k // 3) % 2) for k in range(len(chunk))]}
+    # the SAME strings with conversion on and off in one document, in both orders (memoised conversions show here)
+    dup = SPECIALS[:30] + [CMDS[i] + "_x^2" for i in range(0, len(CMDS), 97)]
+    yield {"where": "body", "texts": dup + dup, "convert": [True] * len(dup) + [False] * len(dup)}
+    yield {"where": "body", "texts": dup + dup, "convert": [False] * len(dup) + [True] * len(dup)}
     for where in ("title", "subline", "header", "footnote", "source", "page_header", "page_footer"):
         for conv in (None, True, False):
             yield {"where": where, "texts": SPECIALS[:24] if where in ("title",) else SPECIALS[:6] + ["\\alpha^2 >= \\beta"], "convert": conv}
